@@ -118,7 +118,7 @@ def main():
     # 2. prove
     lean_ok = True
     if not args.no_proof:
-        ok, log = build.build_lean([plugin.MODULE, "driver"])
+        ok, log = build.build_lean([plugin.MODULE, "driver"] + list(getattr(plugin, "EXTRA_MODULES", [])))
         if not ok:
             lean_ok = False
             tail = "\n".join(l for l in log.split("\n") if "error" in l.lower())[:3000]
@@ -131,7 +131,7 @@ def main():
         if hy:
             broken.append("hygiene: " + "; ".join(hy[:5]))
         if lean_ok:
-            ax = leanchk.print_axioms(plugin.MODULE, obligations)
+            ax = leanchk.print_axioms([plugin.MODULE] + list(getattr(plugin, "EXTRA_MODULES", [])), obligations)
             for t in obligations:
                 okt, a = ax[t]
                 axioms_used[t] = a
